@@ -363,6 +363,8 @@ func runC13(c *Ctx) {
 	ruleLoadOnlyAfterCompletedDKG(c, "R13.10")
 	ruleCommitErrorReachesCaller(c, "R13.11")
 	ruleGroupSavedBeforeShare(c, "R13.12")
+	ruleOutputStoredBeforeHandlerIsNeeded(c, "R13.13")
+	ruleOpenFailureNotADecision(c, "R13.14") // a restart finds the database it left: a busy file is not mistaken for a file of another format
 	ruleErrorsOfPersistenceChecked(c, "R13.7", "internal/dkg", "internal/core", "common/key", "internal/chain/boltdb")
 }
 
